@@ -52,6 +52,8 @@ pub struct Monitor {
     pub reentry: Option<(u64, Box<dyn FnOnce()>)>,
     /// requests that a `Refusing` reader declined: (absolute offset, length)
     pub refusals: Vec<(usize, usize)>,
+    /// discontinuities of a `Refusing` reader's storage
+    pub refuse_cuts: Vec<usize>,
 }
 
 impl Monitor {
@@ -204,6 +206,18 @@ impl<'a> Reader<&'a [u8]> for SimSlice<'a> {
         if length > self.data.len() {
             self.mon.borrow_mut().bytes_none += 1;
             return None;
+        }
+        if length > 1 {
+            // a zero-copy reader over non-contiguous storage cannot lend a
+            // span that crosses a discontinuity: injected read fault
+            let (a, e) = (self.abs, self.abs + length);
+            let mut m = self.mon.borrow_mut();
+            if m.refuse_cuts.iter().any(|&c| a < c && c < e) {
+                if m.refusals.len() < 64 {
+                    m.refusals.push((a, length));
+                }
+                return None;
+            }
         }
         let r = &self.data[..length];
         touch(&self.mon, self.abs + length);
@@ -431,6 +445,11 @@ pub enum ReaderCfg {
     /// monitored contiguous view that, while serving its `at`-th request,
     /// uses the library itself for something else on the same thread
     Reentrant { at: u32, nested: Nested },
+    /// FAULT INJECTION, not a conforming reader: a zero-copy view of
+    /// non-contiguous storage whose `bytes(n)` declines (returns `None`,
+    /// consumes nothing) when the span would cross one of these offsets.
+    /// Results are judged by the relaxed read-fault oracle only.
+    Refusing(Vec<usize>),
 }
 
 /// What a re-entrant reader does in the middle of a request.
@@ -472,6 +491,7 @@ impl ReaderCfg {
             ReaderCfg::Owned => "owned",
             ReaderCfg::Segmented(_) => "segmented",
             ReaderCfg::Reentrant { .. } => "re-entrant",
+            ReaderCfg::Refusing(_) => "refusing",
         }
     }
 }
